@@ -74,6 +74,11 @@ def step (c impl : String) : String :=
       let diag :=
         if name.startsWith "v2" && cc = "F" && uc = "T" && (o = "T" || o = "?") then
           "F11 weighted-graph edge cache stores a false computed under the shared visited filter"
+        else if name.startsWith "v2" && o = "U" then
+          -- the reference answer is "cannot be decided: a condition is unevaluable" (the default engine reports the
+          -- condition error); the weighted-graph engine swallows that error (finding V2-E) and decides, and which way
+          -- depends on which edge results the cache already holds
+          "V2-E weighted-graph engine decides a request that hinges on an unevaluable condition (swallowed condition error) and the decision changes with the contents of the edge cache"
         else "unexplained"
       specViol s!"the query cache changed an answer: engine={name} request#{i % k} pass={i / k} cached={cc} uncached={uc} oracle={o}: {diag}"
     | [] =>
